@@ -524,6 +524,9 @@ func (u *Unit) rfConvert(st *State, v Value, to types.Type) Value {
 	case v.K == KNum && v.Term.Sort == SReal && isIntegerT(to):
 		// gc/amd64: NaN, +-Inf and out-of-range -> MinInt64 (64-bit signed destinations)
 		tr := Ite(Ge(v.Term, RealLit("0.0")), mk("to_int", SInt, v.Term), Neg(mk("to_int", SInt, mk("-", SReal, v.Term))))
+		if v.Inner != nil && v.Inner.K == KInt {
+			tr = v.Inner.Term // the value is to_real of this integer (math.Round / Ceil / Floor / Trunc)
+		}
 		min := IntBig(new(big.Int).Neg(new(big.Int).Lsh(big.NewInt(1), 63)))
 		inr := And(Eq(v.Spec, IntLit(0)), Ge(tr, min), Lt(tr, IntBig(new(big.Int).Lsh(big.NewInt(1), 63))))
 		if u.widthOf(to) != 64 || isUnsignedT(to) {
@@ -551,13 +554,21 @@ func (u *Unit) rfAxioms(hints []*Term) []*Term {
 		pts = append(pts, h)
 	}
 	lim := RealLit(new(big.Int).Lsh(big.NewInt(1), 53).String() + ".0")
+	isHint := map[string]bool{}
+	for _, h := range hints {
+		isHint[h.String()] = true
+	}
 	for _, p := range pts {
 		r := u.rnd(p)
 		// relative error
 		ax = append(ax, Le(abs(mk("-", SReal, r, p)), mk("*", SReal, eps, abs(p))))
-		// integers up to 2^53 are exact
-		isInt := Eq(mk("to_real", SReal, mk("to_int", SInt, p)), p)
-		ax = append(ax, Imp(And(isInt, Le(abs(p), lim)), Eq(r, p)))
+		// integers up to 2^53 are exact (instantiated for hint points and integer-valued arguments only)
+		if p.Op == "to_real" {
+			ax = append(ax, Imp(Le(abs(p), lim), Eq(r, p)))
+		} else if isHint[p.String()] {
+			isInt := Eq(mk("to_real", SReal, mk("to_int", SInt, p)), p)
+			ax = append(ax, Imp(And(isInt, Le(abs(p), lim)), Eq(r, p)))
+		}
 	}
 	for i, p := range pts {
 		for j, q := range pts {
